@@ -113,13 +113,15 @@ def regionCells (m : Region) : List (Nat × Nat) :=
   (List.range (m.er + 1 - m.sr)).flatMap fun dr =>
     (List.range (m.ec + 1 - m.sc)).map fun dc => (m.sr + dr, m.sc + dc)
 
+/-- what the merge pass does to the cell at position `rc` of region `m` -/
+def markCell (m : Region) (rc : Nat × Nat) (cell : Cell) : Cell :=
+  if rc.1 = m.sr ∧ rc.2 = m.sc then
+    { cell with merged := true, root := true,
+                mergeRows := m.er - m.sr + 1, mergeCols := m.ec - m.sc + 1 }
+  else { cell with merged := true }
+
 def applyRegion (g : Grid) (m : Region) : Grid :=
-  (regionCells m).foldl (fun g (rc : Nat × Nat) =>
-    g.modify rc.1 rc.2 fun cell =>
-      if rc.1 = m.sr ∧ rc.2 = m.sc then
-        { cell with merged := true, root := true,
-                    mergeRows := m.er - m.sr + 1, mergeCols := m.ec - m.sc + 1 }
-      else { cell with merged := true }) g
+  (regionCells m).foldl (fun g (rc : Nat × Nat) => g.modify rc.1 rc.2 (markCell m rc)) g
 
 def emptyGrid (nrows ncols : Nat) : Grid := List.replicate nrows (List.replicate ncols {})
 
@@ -139,5 +141,18 @@ def cellText (c : Cell) : Str := if c.merged && !c.root then [] else c.value
 /-- `TextWithOptions` for one sheet, default delimiter -/
 def sheetText (g : Grid) : Str :=
   intercalate [10] (g.map fun row => intercalate [9] (row.map cellText))
+
+end Tabula.Sheet
+
+namespace Tabula.Sheet
+open Tabula.A1
+
+/-- split at every occurrence of `sep` (n separators give n+1 fields) — how a reader of the
+tab-separated text recovers lines and fields -/
+def splitAux (sep : Nat) : Str → Str → List Str
+  | [], cur => [cur.reverse]
+  | c :: cs, cur => if c = sep then cur.reverse :: splitAux sep cs [] else splitAux sep cs (c :: cur)
+
+def splitOn (sep : Nat) (s : Str) : List Str := splitAux sep s []
 
 end Tabula.Sheet
